@@ -200,7 +200,8 @@ def main():
         'bounded_extra': (bounded or {}).get('extra'),
         'samples': samples or [{'note': 'no samples produced'}],
         'exhaustive': False,
-        'explanation': spec.get('explanation', ''),
+        'explanation': spec.get('explanation') or ('proved (deductive, unbounded): %s || bounded stand-in (never counted as proved): %s'
+                                                   % (spec.get('proved_part') or 'nothing yet', spec.get('bounded_part') or 'replay only')),
         'known_findings': [k for k in known_lines],
         'tool_problems': tool_problems, 'selfcheck_problems': selfcheck_problems,
     }
